@@ -145,7 +145,9 @@ func ext۰reflect۰rtype۰Size(fr *frame, args []value) value {
 
 func ext۰reflect۰rtype۰String(fr *frame, args []value) value {
 	// Signature: func (t reflect.rtype) string
-	return args[0].(rtype).t.String()
+	// like reflect: types are qualified by their package NAME, not its path,
+	// so distinct types of same-named packages have equal strings
+	return types.TypeString(args[0].(rtype).t, func(p *types.Package) string { return p.Name() })
 }
 
 func ext۰reflect۰New(fr *frame, args []value) value {
